@@ -1161,3 +1161,45 @@ func HarnessC03Ancestry2() {
 	verifAssert(got.valid == ok, "no-duplicate-inherited-properties-and-no-circular-ancestry")
 	verifReach("end")
 }
+
+// HarnessC10MapOrder: rules that walk Go maps, run twice under two solver-chosen iteration orders of
+// every map: the set of messages must be the same (three mutually overlapping paths; a child that
+// re-declares two inherited properties; three operations sharing an id).
+func HarnessC10MapOrder() {
+	var run func() verifOutcome
+	switch verifChoose(2) {
+	case 0:
+		mk := func(name string) *spec.Operation {
+			op := &spec.Operation{}
+			op.ID = "op" + name
+			p := spec.Parameter{}
+			p.Name, p.In, p.Type, p.Required = name, "path", "string", true
+			op.Parameters = []spec.Parameter{p}
+			return op
+		}
+		ops := map[string]map[string]*spec.Operation{"GET": {"/a/{x}": mk("x"), "/a/{y}": mk("y"), "/a/{z}": mk("z")}}
+		s := newSpecHarnessValidator(&spec.Swagger{}, ops, verifBool(), true)
+		run = func() verifOutcome { return outcomeOfResult(s.validateParameters()) }
+	default:
+		parent := spec.Schema{}
+		parent.Properties = map[string]spec.Schema{"p": {}, "q": {}, "r": {}}
+		own := spec.Schema{}
+		own.Properties = map[string]spec.Schema{"p": {}, "q": {}}
+		if verifBool() {
+			own.Properties["r"] = spec.Schema{}
+		}
+		child := spec.Schema{}
+		child.AllOf = []spec.Schema{*spec.RefSchema("#/definitions/P"), own}
+		sw := &spec.Swagger{}
+		sw.Definitions = spec.Definitions{"P": parent, "K": child}
+		s := newSpecHarnessValidator(sw, nil, verifBool(), true)
+		run = func() verifOutcome { return outcomeOfResult(s.validateDuplicatePropertyNames()) }
+	}
+	verifPermMaps(true)
+	first := run()
+	second := run()
+	verifPermMaps(false)
+	verifAssert(!first.valid && !second.valid, "the-broken-rule-is-reported")
+	verifAssert(verifSameSet(first.errs, second.errs), "error-set-independent-of-map-order")
+	verifReach("end")
+}
